@@ -255,8 +255,12 @@ REC: list = []
 _orig_gts = C.get_terminal_size
 
 
+_DEPTH = [0]  # > 0 while inside set_size(): its own terminal-size reads are part of "setsize"
+
+
 def _gts():
-    REC.append(("termsize",))
+    if not _DEPTH[0]:
+        REC.append(("termsize",))
     return _orig_gts()
 
 
@@ -276,14 +280,36 @@ def _format_render(self, render, h, w, v, ht):
     return _orig_format_render(self, render, h, w, v, ht)
 
 
+_orig_set_size = BaseImage.set_size
+_orig_size_prop = BaseImage.size
+
+
+def _set_size(self, *a, **k):
+    _DEPTH[0] += 1
+    try:
+        return _orig_set_size(self, *a, **k)
+    finally:
+        _DEPTH[0] -= 1
+        if not _DEPTH[0]:
+            REC.append(("setsize", self._size))
+
+
+def _size_fset(self, value):
+    if isinstance(value, C.Size):
+        REC.append(("restore", value))
+    return _orig_size_prop.fset(self, value)
+
+
 BaseImage._renderer = _renderer
 BaseImage._format_render = _format_render
+BaseImage.set_size = _set_size
+BaseImage.size = property(_orig_size_prop.fget, _size_fset, doc=_orig_size_prop.__doc__)
 for _cls in CLASSES.values():
     def _mk(cls):
         orig = cls._render_image
 
         def _render_image(self, img, alpha, **kw):
-            REC.append(("render_image", alpha, dict((k, v) for k, v in kw.items() if k in ARG_ORDER)))
+            REC.append(("render_image", alpha, dict((k, v) for k, v in kw.items() if k in ARG_ORDER), self._size))
             return orig(self, img, alpha, **kw)
 
         cls._render_image = _render_image
@@ -300,6 +326,65 @@ def image_of(style: str):
         env.set_env(cell_size=(8, 16), name={"kitty": "kitty", "iterm2": "wezterm"}.get(style, ""))
         IMAGES[style] = CLASSES[style](_PIL, width=3)
     return IMAGES[style]
+
+
+DYN = ["FIT", "AUTO", "ORIGINAL", "FIT_TO_WIDTH"]
+SIZE_KINDS = DYN + ["fixedw", "fixedh", "animFIT", "animfixed"]
+GLUES = ["format", "fstring", "strformat"]
+_GIF = None
+
+
+def _gif():
+    global _GIF
+    if _GIF is None:
+        frames = [PIL.Image.new("RGB", (6, 6), c) for c in ((200, 10, 10), (10, 10, 200), (10, 200, 10))]
+        buf = io.BytesIO()
+        frames[0].save(buf, "GIF", save_all=True, append_images=frames[1:], duration=100, loop=0)
+        _GIF = PIL.Image.open(io.BytesIO(buf.getvalue()))
+    return _GIF
+
+
+def make_image(style: str, kind: str):
+    """a fresh instance with the given size setting (dynamic `Size` member / fixed), still or animated"""
+    env.set_env(cell_size=(8, 16), name={"kitty": "kitty", "iterm2": "wezterm"}.get(style, ""))
+    cls = CLASSES[style]
+    if kind.startswith("anim"):
+        img = cls(_gif(), width=3) if kind == "animfixed" else cls(_gif())
+        img.seek(1)
+        return img
+    if kind == "fixedw":
+        return cls(_PIL, width=3)
+    if kind == "fixedh":
+        return cls(_PIL, height=2)
+    img = cls(_PIL)
+    img.size = getattr(C.Size, kind)
+    return img
+
+
+def size_str(sz) -> str:
+    return f"dyn {DYN.index(sz.name)}" if isinstance(sz, C.Size) else f"fixed {sz[0]} {sz[1]}"
+
+
+def glue_call(glue: str, img, spec: str) -> str:
+    """the public ways into `__format__`"""
+    if glue == "format":
+        return format(img, spec)
+    if glue == "fstring":
+        return f"{img:{spec}}"
+    return "{0:{1}}".format(img, spec)
+
+
+def full_snapshot(img):
+    """everything observable about the instance and the class-level settings of its class"""
+    cls = type(img)
+    st = {"vars": snapshot(img), "size": size_str(img._size), "frame": img.tell(), "closed": img.closed}
+    for k in cls.__mro__:
+        if k is object:
+            continue
+        st[k.__name__] = {n: repr(v) for n, v in vars(k).items()
+                          if n.startswith("_") and not n.startswith("__") and isinstance(v, (int, float, str, bool, type(None), tuple))}
+    st["cell_ratio"] = repr(getattr(term_image, "_cell_ratio", None))
+    return st
 
 
 def snapshot(img):
@@ -493,6 +578,21 @@ class C19(Property):
             line = f"{op} {style} {hx(s)}"
         return Case(line, d, kind or op, nontrivial)
 
+    def fentry_case(self, style, size_kind, glue, s, cols, lines, kind="fentry"):
+        """`__format__` through the public glue on a fresh instance with the given size setting; the way the
+        dynamic size resolves is taken from the real code (it is a parameter of the model)"""
+        env.set_env(term_size=(cols, lines))
+        img = make_image(style, size_kind)
+        sz, frame = img._size, img.tell()
+        rc = rl = 0
+        if isinstance(sz, C.Size):
+            tmp = make_image(style, size_kind)
+            _orig_set_size(tmp, sz)
+            rc, rl = tmp._size
+        line = f"fentry {style} {cols} {lines} {size_str(sz)} {frame} {rc} {rl} {glue} {hx(s)}"
+        return Case(line, {"op": "fentry", "style": style, "spec": s, "cols": cols, "lines": lines,
+                           "size_kind": size_kind, "glue": glue}, kind, nontrivial=True)
+
     def draw_case(self, rng, style, cols, lines, p, kind="draw"):
         """explicit parameters -> a `draw` request"""
         a = p["alpha"]
@@ -513,8 +613,30 @@ class C19(Property):
             for style in CLASSES:
                 yield self.single("check", style, s, kind="fixed")
                 yield self.single("format", style, s, kind="fixed-format")
+        # the public glue on instances of every size setting: accepted, main-grammar rejects, style-part rejects
+        fspecs = {"block": ["", "<.^", "7.3#", ".", "1.", ".##", "x", "+", "+L", "2+z1"],
+                  "kitty": ["", "|.-#", "+Wz1m1c9", ".", "#.", ".+L", "+x", "+z1L", "1+m2", "+z2147483648"],
+                  "iterm2": ["", ">9.2##", "+Am1c0", "1.", "<^", ".##+L", "+z1", "+LL", "#+c", "5+m01"]}
+        n = 0
+        for style in CLASSES:
+            for kind in SIZE_KINDS:
+                for s in fspecs[style]:
+                    n += 1
+                    if tier == "quick" and kind.startswith("anim") and n % 2:
+                        continue
+                    yield self.fentry_case(style, kind, GLUES[n % 3], s, *[(40, 20), (24, 12), (80, 30)][n % 3], kind="fentry-fixed")
         while True:
             style = rng.choice(["block", "kitty", "kitty", "iterm2", "iterm2"])
+            if rng.random() < 0.04:
+                s = self.rand_sentence(rng, style, small=True)
+                if rng.random() < 0.6:
+                    s = self.mutate(rng, s) if rng.random() < 0.5 else rng.choice(fspecs[style])
+                big = any(m.end() - m.start() >= 3 and not (s[:m.start()].endswith("#") or s[:m.start()].endswith("#."))
+                          for m in re.finditer(r"[0-9]+", s))
+                if not big:
+                    yield self.fentry_case(style, rng.choice(SIZE_KINDS), rng.choice(GLUES), s,
+                                           *rng.choice([(40, 20), (24, 12), (30, 30), (80, 30)]), kind="fentry")
+                continue
             cols, lines = rng.choice([(80, 30), (80, 30), (1, 1), (2, 2), (3, 3), (200, 70), (rng.randrange(1, 300), rng.randrange(1, 100))])
             r = rng.random()
             if r < 0.40:
@@ -691,11 +813,55 @@ class C19(Property):
             img = image_of(d["style"])
             evs, res, _ = run_recorded(lambda: format(img, s))
             return " ".join([str(len(evs))] + evs) + " " + res
+        if op == "fentry":
+            img = make_image(d["style"], d["size_kind"])
+            return self.run_fentry(img, d["glue"], s)[0]
         if op == "draw":
             img = image_of(d["style"])
             evs, res, _ = self.run_draw(img, d["p"])
             return res
         return "harness-bad-op"
+
+    def run_fentry(self, img, glue, s):
+        """-> (canonical line, result, returned string, what was written to stdout)"""
+        REC.clear()
+        buf = io.StringIO()
+        old = sys.stdout
+        sys.stdout = buf
+        out = None
+        try:
+            try:
+                out = glue_call(glue, img, s)
+                res = None
+            except (ValueError, StyleError, TypeError) as e:
+                res = err(e)
+        finally:
+            sys.stdout = old
+        rec = list(REC)
+        REC.clear()
+        evs, entered = [], False
+        for r in rec:
+            if r[0] == "termsize":
+                if not entered and (not evs or evs[-1] != "termsize"):
+                    evs.append("termsize")
+            elif r[0] == "renderer":
+                entered = True
+                evs.append("enter")
+            elif r[0] == "setsize":
+                evs.append("setsize:%dx%d" % tuple(r[1]) if isinstance(r[1], tuple) else "setsize:" + str(r[1]))
+            elif r[0] == "render_image":
+                evs.append("render:%dx%d" % tuple(r[3]) if isinstance(r[3], tuple) else "render:" + str(r[3]))
+            elif r[0] == "restore":
+                evs.append(f"restore:{DYN.index(r[1].name)}")
+        if res is None:
+            ri = [r for r in rec if r[0] == "render_image"]
+            fr = [r for r in rec if r[0] == "format_render"]
+            if len(ri) != 1 or len(fr) != 1:
+                res = f"ok calls render_image={len(ri)} format_render={len(fr)}"
+            else:
+                res = "ok " + fmt_result((*fr[0][1:], ri[0][1], ri[0][2]))
+        line = " ".join([str(len(evs))] + evs) + " " + res + f" state {size_str(img._size)} {img.tell()}"
+        return line, res, out, buf.getvalue()
 
     def run_draw(self, img, p):
         alpha = C._ALPHA_THRESHOLD if p["alpha"] == "default" else p["alpha"]
@@ -764,6 +930,47 @@ class C19(Property):
             return self.oracle_spec(d["style"], d["spec"], d["cols"], d["lines"], impl_result, "_check_format_spec")
         if op == "format":
             return self.oracle_format(d)
+        if op == "fentry":
+            return self.oracle_fentry(d)
+        return None
+
+    def oracle_fentry(self, d):
+        """through the public glue, on an instance with the given size setting: a rejected specifier raises the
+        documented error and leaves NOTHING changed; an accepted one renders what draw() with the equivalent
+        parameters prints and leaves nothing changed either"""
+        style, s, cols, lines, kind, glue = d["style"], d["spec"], d["cols"], d["lines"], d["size_kind"], d["glue"]
+        env.set_env(term_size=(cols, lines))
+        img = make_image(style, kind)
+        before = full_snapshot(img)
+        _, res, out, written = self.run_fentry(img, glue, s)
+        after = full_snapshot(img)
+        key = f"{style}/{kind}/{glue}/{s!r}"
+        f = self.oracle_spec(style, s, cols, lines, res, f"{glue} on a {kind} image")
+        if f:
+            f.key = f.key.replace(f"{style}/", f"{style}/{kind}/{glue}/", 1)
+            return f
+        if written:
+            return Failure(f"writes/{key}", f"{glue}(img, {s!r}) wrote {len(written)} characters to stdout")
+        if after != before:
+            diff = {k: (before[k], after[k]) for k in before if before[k] != after.get(k)}
+            what = "rejected" if res.startswith("err") else "accepted"
+            return Failure(f"side-effect/{key}", f"{what} specifier {s!r} via {glue} on a {type(img).__name__} with size "
+                           f"{before['size']} changed the instance: size {before['size']} -> {after['size']}, frame "
+                           f"{before['frame']} -> {after['frame']}; differing: {sorted(diff)}", extra={"diff": repr(diff)[:1500]})
+        if res.startswith("err"):
+            return None
+        p = doc_parse(style, s)[1]
+        if p["pad_width"] > cols or (isinstance(p["alpha"], float) and p["alpha"] >= 1.0):
+            return None
+        img2 = make_image(style, kind)
+        _, dres, printed = self.run_draw(img2, p)
+        if not dres.startswith("ok"):
+            return Failure(f"draw-rejects/{key}", f"draw() with the parameters denoted by {s!r} raised {dres}")
+        if dres != res:
+            return Failure(f"draw-params/{key}", f"{glue}({s!r}) rendered with {res}, draw(explicit) with {dres}")
+        from term_image._ctlseqs import SGR_DEFAULT
+        if printed != out + SGR_DEFAULT + "\n":
+            return Failure(f"draw-output/{key}", f"{glue}(img, {s!r}) on a {kind} image differs from what draw() with the equivalent parameters prints")
         return None
 
     def oracle_format(self, d):
